@@ -307,6 +307,142 @@ fn pool() -> Vec<Vec<u8>> {
     p
 }
 
+/// keys for the KEYS-pattern cases: class / range / literal-bracket material spread over shards
+fn keys_pool() -> Vec<Vec<u8>> {
+    let mut p: Vec<Vec<u8>> = (0..24).map(|i| format!("k{}", i).into_bytes()).collect();
+    for i in 0..10 {
+        p.push(format!("user:{}", i).into_bytes());
+    }
+    for x in ["user:-", "user:[0-9]", "user:x", "a", "b", "k[", "k]", "k-", "k^", "ab", "a-c"] {
+        p.push(x.as_bytes().to_vec());
+    }
+    p
+}
+
+/// a glob pattern of a random shape, built around the keys of the case (ASCII only)
+fn pattern_for(rng: &mut Rng, keys: &[Vec<u8>]) -> Vec<u8> {
+    let ascii: Vec<&Vec<u8>> = keys.iter().filter(|k| !k.is_empty() && k.iter().all(|c| c.is_ascii_graphic() || *c == b' ')).collect();
+    if ascii.is_empty() || rng.chance(1, 10) {
+        return rng
+            .pick(&[&b"*"[..], b"k*", b"k?", b"*1*", b"a", b"?", b"k1?", b"nosuchkey", b"[", b"[]", b"[^]", b"*[", b"k[", b"[^k]*", b"*[0-9]", b"[a-z]", b"[a-cx]*"])
+            .to_vec();
+    }
+    let k = (*rng.pick(&ascii)).clone();
+    let mut out: Vec<u8> = Vec::new();
+    // literal only: existing key, or a missing one
+    match rng.below(10) {
+        0 => return k,
+        1 => {
+            let mut m = k.clone();
+            m.push(b'#');
+            return m;
+        }
+        _ => {}
+    }
+    let pos = rng.below(k.len() as u64) as usize;
+    let star_at = if rng.chance(1, 3) { Some(rng.below(k.len() as u64 + 1) as usize) } else { None };
+    for (i, &c) in k.iter().enumerate() {
+        if Some(i) == star_at {
+            out.push(b'*');
+            if rng.chance(1, 2) {
+                break;
+            }
+        }
+        if i == pos {
+            let others: Vec<u8> = (0..rng.below(3)).map(|_| *rng.pick(&[b'0', b'1', b'5', b'9', b'a', b'k', b'x', b'-', b':', b'^', b'u'])).collect();
+            match rng.below(8) {
+                // class containing the byte
+                0 | 1 => {
+                    out.push(b'[');
+                    out.extend(&others);
+                    out.push(c);
+                    out.push(b']');
+                }
+                // negated class (may or may not contain the byte)
+                2 => {
+                    out.extend_from_slice(b"[^");
+                    out.extend(&others);
+                    if rng.chance(1, 3) {
+                        out.push(c);
+                    }
+                    out.push(b']');
+                }
+                // range with a following byte (a real range)
+                3 => {
+                    out.push(b'[');
+                    out.push(c.saturating_sub(rng.below(3) as u8).max(b' '));
+                    out.push(b'-');
+                    out.push(c.saturating_add(rng.below(3) as u8).min(b'~'));
+                    out.push(*rng.pick(&[b'x', b'_', b'0']));
+                    out.push(b']');
+                }
+                // "range" without a following byte (three literals)
+                4 => {
+                    out.push(b'[');
+                    out.push(c.saturating_sub(rng.below(2) as u8).max(b' '));
+                    out.push(b'-');
+                    out.push(c.saturating_add(rng.below(4) as u8).min(b'~'));
+                    out.push(b']');
+                }
+                // unterminated class
+                5 => {
+                    out.push(b'[');
+                    out.push(c);
+                }
+                6 => out.push(b'?'),
+                // empty / inverted range classes
+                _ => out.extend_from_slice(*rng.pick(&[&b"[]"[..], b"[^]", b"[z-ay-b]", b"[9-0x]"])),
+            }
+        } else if rng.chance(1, 8) {
+            out.push(b'?');
+        } else {
+            out.push(c);
+        }
+    }
+    if star_at == Some(k.len()) {
+        out.push(b'*');
+    }
+    out
+}
+
+fn keys_op(pat: &[u8]) -> Op {
+    let mut o = Op::nullary("KEYS");
+    o.pat = Some(pat.to_vec());
+    o
+}
+
+/// KEYS with patterns of every shape over a keyspace that is spread over the shards
+fn keys_case(rng: &mut Rng, corpus: bool) -> Case {
+    let n = if corpus { 4 } else { *rng.pick(&[2usize, 3, 4, 8, 16]) };
+    let mut all = keys_pool();
+    if !corpus {
+        rng.shuffle(&mut all);
+        all.truncate(rng.range(8, 30) as usize);
+    }
+    let mut ops = Vec::new();
+    for ch in all.chunks(12) {
+        ops.push(Op::new("MSET", ch.to_vec(), ch.iter().map(|_| b"v".to_vec()).collect()));
+    }
+    if corpus {
+        for p in [
+            &b"user:[0-9]"[..], b"user:[0-9x]", b"user:[^0]", b"user:[", b"user:[]", b"user:[^]", b"user:[0-9]*", b"user:[[]0-9]",
+            b"k[1-3x]?", b"k1", b"nokey", b"*[0-9]", b"k[0-9x][0-9x]", b"[ku]*", b"k[[]", b"k[]]", b"k[\\^-]", b"a[-]c", b"[a-cx]", b"[a-c]",
+            b"k[z-ay-b]", b"k?", b"*", b"k[^0-9x]",
+        ] {
+            ops.push(keys_op(p));
+        }
+    } else {
+        for _ in 0..rng.range(6, 24) {
+            match rng.below(10) {
+                0 => ops.push(Op::new("DEL", vec![all[rng.below(all.len() as u64) as usize].clone(), all[rng.below(all.len() as u64) as usize].clone()], vec![])),
+                1 => ops.push(Op::nullary("DBSIZE")),
+                _ => ops.push(keys_op(&pattern_for(rng, &all))),
+            }
+        }
+    }
+    Case { n, class: "keys", ops }
+}
+
 fn val(rng: &mut Rng) -> Vec<u8> {
     match rng.below(12) {
         0 => vec![],
@@ -467,8 +603,12 @@ fn corpus(ctx: &Ctx) -> Vec<Case> {
         sc.count = Some(200);
         sc.pat = Some(b"k0*".to_vec());
         ops.push(sc.clone());
+        sc.pat = Some(b"k0[0-4x]?".to_vec());
+        ops.push(sc.clone());
         cs.push(Case { n, class: "scan", ops });
     }
+    // KEYS patterns of every shape (classes, ranges, negation, unterminated, literal only)
+    cs.push(keys_case(&mut Rng::new(0xC03), true));
     // RANDOMKEY looked at shard 0 only before fix 4d9bd05: one key that does not live there
     let k = p.iter().find(|k| ctx.gen(k, 4) != 0).unwrap();
     cs.push(Case {
@@ -572,9 +712,7 @@ fn random_case(ctx: &Ctx, rng: &mut Rng) -> Case {
                 21 | 22 => Op::new("DEL", some_keys(rng, 1, 5), vec![]),
                 23 | 24 => Op::new("EXISTS", some_keys(rng, 1, 5), vec![]),
                 25 | 26 => {
-                    let mut o = Op::nullary("KEYS");
-                    o.pat = Some(rng.pick(&[&b"*"[..], b"k*", b"k?", b"*1*", b"a", b"?", b"k1?"]).to_vec());
-                    o
+                    keys_op(&pattern_for(rng, &keys))
                 }
                 27 | 28 => Op::nullary("DBSIZE"),
                 _ => {
@@ -841,7 +979,7 @@ pub fn run(a: &Args) {
         run_timed(&mut out, &ctx, carries, tn, &tops).await;
         for _ in 0..a.n {
             let mut r = rng.fork();
-            let c = random_case(&ctx, &mut r);
+            let c = if r.chance(1, 7) { keys_case(&mut r, false) } else { random_case(&ctx, &mut r) };
             run_case(&mut out, &ctx, &c).await;
             if r.chance(1, 6) {
                 let (tn, tops) = timed_random(&ctx, &mut r);
@@ -849,5 +987,5 @@ pub fn run(a: &Args) {
             }
         }
     });
-    out.finish("case = one command sequence (8..40 ops over 3..9 keys; corpus cases up to 80 ops) run on real ShardedActorState instances with 1 and N ∈ {2,3,4,8,16} shards and on the model: single-key string/list commands, MGET/MSET/DEL/EXISTS fan-out, KEYS/DBSIZE/FLUSH, fast/pooled/batch byte paths (incl. non-UTF-8 keys), two-key commands, MSETNX, SCAN, RANDOMKEY; plus timed streams (SET [PX], GET, EXISTS, DBSIZE, fast/pooled GET/SET with the simulated clock advanced between commands; non-trivial iff a TTL is set and time passes); distinct by shard count + op text; non-trivial iff its keys live on ≥ 2 shards and it contains a fan-out, byte-path or two-key command");
+    out.finish("case = one command sequence (8..40 ops over 3..9 keys; corpus cases up to 80 ops) run on real ShardedActorState instances with 1 and N ∈ {2,3,4,8,16} shards and on the model: single-key string/list commands, MGET/MSET/DEL/EXISTS fan-out, KEYS/DBSIZE/FLUSH, fast/pooled/batch byte paths (incl. non-UTF-8 keys), two-key commands, MSETNX, SCAN, RANDOMKEY; KEYS / SCAN MATCH patterns of every shape (literal only for an existing / a missing key, `*`, `?`, classes, negated classes, ranges, degenerate ranges, unterminated `[`, empty classes, mixed) over keyspaces of 8..45 keys spread over the shards; plus timed streams (SET [PX], GET, EXISTS, DBSIZE, fast/pooled GET/SET with the simulated clock advanced between commands; non-trivial iff a TTL is set and time passes); distinct by shard count + op text; non-trivial iff its keys live on ≥ 2 shards and it contains a fan-out, byte-path or two-key command");
 }
